@@ -571,11 +571,13 @@ func c17captured(p *core.Prog, res *core.Result, fi *core.FuncInfo, rule string)
 func c17(p *core.Prog, res *core.Result) {
 	res.Explanation = "C17 (guard discipline): G1 for every struct type shared by concurrently running handlers or pipeline goroutines (table confirmed by reading, re-derived by walking the field graph from server.GripServer), " +
 		"every field that is written after construction is accessed only while a common mutex of the object is held (must-lockset over go/cfg; fields of sync/atomic types excepted; constructors excluded); " +
-		"G2 in every function that starts goroutines and is reachable from a request, each local variable shared between the function and its goroutines (or between goroutines) is accessed either before the first go statement, after the join, atomically, or under a common mutex."
+		"G3 goroutines started inside a loop use no variable of the loop statement itself (one variable per loop before go 1.22); G4 a slice sent on a channel is not resliced and reused by the sender; G2 in every function that starts goroutines and is reachable from a request, each local variable shared between the function and its goroutines (or between goroutines) is accessed either before the first go statement, after the join, atomically, or under a common mutex."
 	res.NotDecided = []string{"linearizability of the final state", "races inside the storage engines and on protobuf message internals", "ownership transfer of travelers/elements through channels (deliberately outside a lockset rule)"}
 	res.Assumptions = []string{"every exported method of a shared type can run concurrently with every other one"}
 	res.Rule("G1", "fields of shared objects written after construction are always accessed under a common mutex", 8)
 	res.Rule("G2", "locals shared with goroutines are ordered or guarded", 6)
+	res.Rule("G3", "goroutines started in a loop capture no variable of the loop statement", 2)
+	res.Rule("G4", "a slice handed over on a channel is not reused by the sender", 2)
 
 	for _, sh := range c17Shared {
 		named := p.Named(sh.rel, sh.name)
@@ -626,6 +628,8 @@ func c17(p *core.Prog, res *core.Result) {
 			continue
 		}
 		c17captured(p, res, fi, "G2")
+		loopVarCapture(p, res, fi, "G3")
+		sliceHandOver(p, res, fi, "G4")
 	}
 }
 
@@ -651,7 +655,14 @@ func c17selftest(st *core.Prog, res *core.Result) {
 			continue
 		}
 		tmp := core.NewResult("C17", "self")
-		c17captured(st, tmp, fi, "G2")
+		switch {
+		case strings.Contains(name, "Loop"):
+			loopVarCapture(st, tmp, fi, "G3")
+		case strings.Contains(name, "HandOver"):
+			sliceHandOver(st, tmp, fi, "G4")
+		default:
+			c17captured(st, tmp, fi, "G2")
+		}
 		got := core.Discharged
 		for _, o := range tmp.Obls {
 			if o.Status == core.Violated {
@@ -688,4 +699,170 @@ func c17selftest(st *core.Prog, res *core.Result) {
 			res.OKTrivial("SELF", "selftest|c17."+tn, "-", "field rule gives "+string(got)+" as expected")
 		}
 	}
+}
+
+// ---------------------------------------------------------------------------
+// G3: goroutines started in a loop do not capture the loop's own variables
+// (language versions before 1.22 have one variable per loop, not per iteration).
+
+func goVersionBefore122(p *core.Prog) (bool, string) {
+	for _, pk := range p.Pkgs {
+		if pk.Module != nil && pk.Module.GoVersion != "" {
+			var maj, min int
+			fmt.Sscanf(pk.Module.GoVersion, "%d.%d", &maj, &min)
+			return maj == 1 && min < 22, pk.Module.GoVersion
+		}
+	}
+	return true, "unknown"
+}
+
+// goroutineLits: function literals started as goroutines inside node (go f(), x.Go(f)).
+func goroutineLits(n ast.Node) []*ast.FuncLit {
+	var out []*ast.FuncLit
+	ast.Inspect(n, func(x ast.Node) bool {
+		switch s := x.(type) {
+		case *ast.GoStmt:
+			if l, ok := s.Call.Fun.(*ast.FuncLit); ok {
+				out = append(out, l)
+			}
+		case *ast.CallExpr:
+			if sel, ok := s.Fun.(*ast.SelectorExpr); ok && sel.Sel.Name == "Go" && len(s.Args) == 1 {
+				if l, ok := s.Args[0].(*ast.FuncLit); ok {
+					out = append(out, l)
+				}
+			}
+		}
+		return true
+	})
+	return out
+}
+
+func loopVarCapture(p *core.Prog, res *core.Result, fi *core.FuncInfo, rule string) int {
+	info := fi.Pkg.TypesInfo
+	fkey := core.FuncKey(fi.Obj)
+	old, ver := goVersionBefore122(p)
+	n := 0
+	ast.Inspect(fi.Decl.Body, func(x ast.Node) bool {
+		var vars []types.Object
+		var body *ast.BlockStmt
+		switch s := x.(type) {
+		case *ast.RangeStmt:
+			if s.Tok == token.DEFINE {
+				for _, e := range []ast.Expr{s.Key, s.Value} {
+					if id, ok := e.(*ast.Ident); ok && id.Name != "_" {
+						if o := info.Defs[id]; o != nil {
+							vars = append(vars, o)
+						}
+					}
+				}
+			}
+			body = s.Body
+		case *ast.ForStmt:
+			if as, ok := s.Init.(*ast.AssignStmt); ok && as.Tok == token.DEFINE {
+				for _, l := range as.Lhs {
+					if id, ok := l.(*ast.Ident); ok {
+						if o := info.Defs[id]; o != nil {
+							vars = append(vars, o)
+						}
+					}
+				}
+			}
+			body = s.Body
+		}
+		if body == nil || len(vars) == 0 {
+			return true
+		}
+		for _, lit := range goroutineLits(body) {
+			n++
+			res.Fn(fkey)
+			key := fmt.Sprintf("%s|loop@%s|go#%d", fkey, vars[0].Name(), n)
+			var captured types.Object
+			var at token.Pos
+			ast.Inspect(lit.Body, func(y ast.Node) bool {
+				if id, ok := y.(*ast.Ident); ok && captured == nil {
+					for _, v := range vars {
+						if info.Uses[id] == v {
+							captured, at = v, id.Pos()
+						}
+					}
+				}
+				return true
+			})
+			switch {
+			case captured == nil:
+				res.OK(rule, key, p.Pos(lit.Pos()), "the goroutine uses no variable of the enclosing loop statement (copies or arguments only)")
+			case !old:
+				res.OKTrivial(rule, key, p.Pos(lit.Pos()), "go "+ver+": loop variables are per iteration")
+			default:
+				res.Bad(rule, key, p.Pos(at), fmt.Sprintf("%s: the goroutine started at %s uses the loop variable %s (go.mod says go %s: one variable for all iterations): every goroutine sees the value of the last iteration, so the workers all serve the same item and the others are never served", fkey, p.Pos(lit.Pos()), captured.Name(), ver))
+			}
+		}
+		return true
+	})
+	return n
+}
+
+// ---------------------------------------------------------------------------
+// G4: a slice handed to another goroutine through a channel is not written
+// again by the sender: after `ch <- s` the next assignment to s is a fresh
+// allocation, not a reslice of the same backing array.
+
+func sliceHandOver(p *core.Prog, res *core.Result, fi *core.FuncInfo, rule string) int {
+	info := fi.Pkg.TypesInfo
+	fkey := core.FuncKey(fi.Obj)
+	n := 0
+	// slice locals that are sent on a channel
+	sent := map[types.Object]token.Pos{}
+	ast.Inspect(fi.Decl.Body, func(x ast.Node) bool {
+		if snd, ok := x.(*ast.SendStmt); ok {
+			if o := defOrUse(info, snd.Value); o != nil {
+				if _, isSlice := o.Type().Underlying().(*types.Slice); isSlice {
+					if _, seen := sent[o]; !seen {
+						sent[o] = snd.Pos()
+					}
+				}
+			}
+		}
+		return true
+	})
+	var objs []types.Object
+	for o := range sent {
+		objs = append(objs, o)
+	}
+	sort.Slice(objs, func(i, j int) bool { return objs[i].Pos() < objs[j].Pos() })
+	for _, o := range objs {
+		n++
+		res.Fn(fkey)
+		key := fmt.Sprintf("%s|%s", fkey, o.Name())
+		bad := token.NoPos
+		what := ""
+		ast.Inspect(fi.Decl.Body, func(x ast.Node) bool {
+			as, ok := x.(*ast.AssignStmt)
+			if !ok || len(as.Lhs) != len(as.Rhs) || bad != token.NoPos {
+				return true
+			}
+			for i, l := range as.Lhs {
+				if defOrUse(info, l) != o || as.Tok == token.DEFINE {
+					continue
+				}
+				switch r := ast.Unparen(as.Rhs[i]).(type) {
+				case *ast.SliceExpr:
+					if defOrUse(info, r.X) == o {
+						bad, what = as.Pos(), types.ExprString(r)
+					}
+				case *ast.Ident:
+					if info.Uses[r] == o {
+						continue
+					}
+				}
+			}
+			return true
+		})
+		if bad != token.NoPos {
+			res.Bad(rule, key, p.Pos(bad), fmt.Sprintf("%s: the slice %s is sent to another goroutine at %s and then reused as %s at %s: sender and receiver share one backing array, so the receiver sees elements overwritten while it still reads them (elements lost or written twice)", fkey, o.Name(), p.Pos(sent[o]), what, p.Pos(bad)))
+		} else {
+			res.OK(rule, key, p.Pos(sent[o]), "after the hand-over the variable is only given fresh allocations")
+		}
+	}
+	return n
 }
